@@ -81,6 +81,8 @@ KINDS = (
     ("function now a builtin type's method descriptor", CallTraceRow("builtins", "str.upper", "{}", None, None), False),
     ("module removed whose name is a textual prefix of the live module's", CallTraceRow("vfix.func", "f", "{}", None, None), False),
     ("method now a custom non-data descriptor", CallTraceRow(M, "WithLazy.lazy", "{}", None, None), False),
+    ("module two levels below a removed package", CallTraceRow("vfix.gone.sub.mod", "f", "{}", None, None), False),
+    ("argument class's module removed, its name a textual prefix of a live class module's", CallTraceRow(M, "mod_func", A(a=("vfix.class", "A")), None, None), False),
     ("function now a functools.partial object", CallTraceRow(M, "PARTIAL", "{}", None, None), False),
     ("function now an instance with __call__", CallTraceRow(M, "CALLABLE_OBJ", "{}", None, None), False),
     ("element class removed inside a generic",
